@@ -81,7 +81,8 @@ def tree_hash():
             h.update(f.encode())
             h.update(open(f, "rb").read())
     # the machinery itself is part of the key
-    for pat in ("harness/rt/src/*.rs", "harness/rt/Cargo.toml", "lean/Gecs/**/*.lean", "lean/Main.lean", "tools/*.py",
+    for pat in ("harness/rt/src/*.rs", "harness/rt/Cargo.toml", "harness/alloc_check/src/*.rs", "harness/alloc_check/Cargo.toml",
+                "lean/Gecs/**/*.lean", "lean/Gecs.lean", "lean/Main.lean", "tools/*.py",
                 "harness/mac/src/*.rs", "harness/mac/Cargo.toml"):
         for f in sorted(glob.glob(os.path.join(VERIF, pat), recursive=True)):
             h.update(f.encode())
@@ -394,6 +395,10 @@ BOUNDARY_EXPECT = [
     "B7 len={max} cap={max} monotone=1 failed_at=-1 growths_ge1=1",
     "B8 extra_create=panic:CapacityOverflow dup_of_first=0 len={max}",
     "B9 ok cap={max} within=1",
+    "B10.0 cap0_below_max=1 within_ok=1 len={max} cap={max} failed_at=-1 extra=panic:CapacityOverflow",
+    "B10.1 cap0_below_max=2 within_ok=1 len={max} cap={max} failed_at=-1 extra=panic:CapacityOverflow",
+    "B10.2 cap0_below_max=7 within_ok=1 len={max} cap={max} failed_at=-1 extra=panic:CapacityOverflow",
+    "B10.3 cap0_below_max={quarter} within_ok=1 len={max} cap={max} failed_at=-1 extra=panic:CapacityOverflow",
 ]
 BOUNDARY_WHAT = {
     "B1": "with_capacity beyond 2^24 must panic", "B2": "with_capacity(n) permits exactly n create_within_capacity without reallocation",
@@ -402,6 +407,10 @@ BOUNDARY_WHAT = {
     "B7": "growth from the empty world reaches the limit",
     "B8": "a create beyond the limit must be refused; whatever it does, it must not return a handle that is already alive",
     "B9": "with_capacity(2^24) is legal and gives exactly that capacity",
+    "B10.0": "from an initial capacity of 2^24 - 1, create succeeds until 16,777,216 entities exist and only then panics",
+    "B10.1": "from an initial capacity of 2^24 - 2, create succeeds until 16,777,216 entities exist and only then panics",
+    "B10.2": "from an initial capacity of 2^24 - 7, create succeeds until 16,777,216 entities exist and only then panics",
+    "B10.3": "from an initial capacity of 3*2^22 + 1, create succeeds until 16,777,216 entities exist and only then panics",
 }
 
 
@@ -422,7 +431,7 @@ def run_boundary(cfgname):
             t0 = time.time()
             p = subprocess.run([b["bin"], "boundary"], stdout=subprocess.PIPE, stderr=subprocess.PIPE, text=True, env=ENV, timeout=1800)
             mx = 1 << 24
-            exp = [e.format(max=mx, maxm1=mx - 1, half=mx // 2, half1=mx // 2 + 1) for e in BOUNDARY_EXPECT]
+            exp = [e.format(max=mx, maxm1=mx - 1, half=mx // 2, half1=mx // 2 + 1, quarter=mx - (3 * (mx // 4) + 1)) for e in BOUNDARY_EXPECT]
             got = p.stdout.splitlines()
             res["lines"] = got
             died = p.returncode != 0
@@ -463,22 +472,34 @@ def run_shapes(cfgname):
             if p.returncode != 0:
                 res["crashed"] = f"shapes run exited with {p.returncode}: {p.stderr[-300:]}"
             l1 = next((x for x in got if x.startswith("L1 ")), None)
-            if not res.get("crashed") and not (l1 and "all_or_nothing=1" in l1 and "errors=0" in l1):
+            if not res.get("crashed") and not (l1 and "all_or_nothing=1" in l1 and "errors=0" in l1 and "alloc=0" in l1):
                 res["oracle_hits"].append({"property": "C10", "seq": "shapes", "line": 0, "op": "rt shapes", "class": "shapes-L1", "no_shrink": True,
-                                           "what": f"after a runtime borrow guard was leaked with mem::forget, a create that panics must leave the archetype unchanged and one that returns must have added a whole entity (harness/rt/src/shapes.rs leaked_guard); observed `{l1}`"})
+                                           "what": f"after a runtime borrow guard was leaked with mem::forget, a create that panics must leave the archetype unchanged and one that returns must have added a whole entity, and the world must afterwards be dropped with the layouts its arrays really have (alloc=0, harness/rt/src/alloc_check.rs) (harness/rt/src/shapes.rs leaked_guard); observed `{l1}`"})
+            l3 = next((x for x in got if x.startswith("L3 ")), None)
+            if not res.get("crashed") and not (l3 and "all_or_nothing=1" in l3 and "errors=0" in l3 and "alloc=0" in l3):
+                res["oracle_hits"].append({"property": "C10", "seq": "shapes", "line": 0, "op": "rt shapes", "class": "shapes-L3", "no_shrink": True,
+                                           "what": f"with the guard of each column leaked in turn (mem::forget) and the archetype grown through several reallocations, every create must add a whole entity or change nothing, and the world must stay usable and be dropped with the layouts its arrays really have (alloc=0) (harness/rt/src/shapes.rs leaked_guard_growth); observed `{l3}`"})
+            f1 = next((x for x in got if x.startswith("F1 ")), None)
+            if not res.get("crashed") and not (f1 and f1.startswith("F1 accepted=0 ") and "data_intact=1" in f1):
+                res["oracle_hits"].append({"property": "C03", "seq": "shapes", "line": 0, "op": "rt shapes", "class": "shapes-F1", "no_shrink": True,
+                                           "what": f"in a world with ONE archetype, keys whose archetype byte is not that archetype's (EntityAny::from_raw over the 255 other values; handles and direct handles of a world of another type with equal position and generation) must be rejected or panic cleanly on every dynamically typed path, ecs_find! / ecs_find_borrow! included, and leave the data untouched (harness/rt/src/shapes.rs one::run); observed `{f1}`"})
+            d1 = next((x for x in got if x.startswith("D1 ")), None)
+            if not res.get("crashed") and d1 != "D1 is_destroy=0011 default=Continue from_unit=Continue from_continue=Continue from_break=Break step_default=Continue step_from_unit=Continue":
+                res["oracle_hits"].append({"property": "C07", "seq": "shapes", "line": 0, "op": "rt shapes", "class": "shapes-D1", "no_shrink": True,
+                                           "what": f"the step values an ecs_iter_destroy! closure returns: is_destroy() holds exactly for ContinueDestroy and BreakDestroy; (), EcsStep::Continue and the defaults mean Continue, EcsStep::Break means Break (harness/rt/src/shapes.rs step_values); observed `{d1}`"})
             l2 = next((x for x in got if x.startswith("L2 ")), None)
-            if not res.get("crashed") and l2 != "L2 loop_ok=1 visited=5 left=2/1 consistent=1 errors=0":
+            if not res.get("crashed") and l2 != "L2 loop_ok=1 visited=5 left=2/1 consistent=1 errors=0 alloc=0":
                 res["oracle_hits"].append({"property": "C07", "seq": "shapes", "line": 0, "op": "rt shapes", "class": "shapes-L2", "no_shrink": True,
                                            "what": f"ecs_iter_destroy! over two archetypes after a column guard was leaked with mem::forget must visit all 5 entities, destroy exactly the 2 flagged ones and leave the archetypes consistent (harness/rt/src/shapes.rs leaked_guard_iter_destroy); observed `{l2}`"})
             tags = [f"S{i}" for i in range(1, 8)]
             for tag in tags:
                 g = next((x for x in got if x.startswith(tag + " ")), None)
                 f = dict(kv.split("=") for kv in (g or "").split() if "=" in kv)
-                ok = g is not None and " ok " in g and f.get("live") == "0" and f.get("zlive") == "0" and f.get("errors") == "0" \
+                ok = g is not None and " ok " in g and f.get("live") == "0" and f.get("zlive") == "0" and f.get("errors") == "0" and f.get("alloc") == "0" \
                     and int(f.get("dropped", -1)) == int(f.get("made", 0)) + int(f.get("cloned", 0))
                 if not ok and not res.get("crashed"):
                     res["oracle_hits"].append({"property": "C04", "seq": "shapes", "line": 0, "op": "rt shapes", "class": "shapes-" + tag, "no_shrink": True,
-                                               "what": f"ownership scenario on archetype shape {tag} (see harness/rt/src/shapes.rs): every value made or cloned must be dropped exactly once and nothing may stay alive; observed `{g}`"})
+                                               "what": f"ownership scenario on archetype shape {tag} (see harness/rt/src/shapes.rs): every value made or cloned must be dropped exactly once, nothing may stay alive, and every array must be released with the layout it was allocated with (alloc=0); observed `{g}`"})
         json.dump(res, open(jf, "w"))
         return res
 
@@ -920,7 +941,7 @@ RT_PROPS = {
     "C09": dict(profiles=["mix", "query", "churn", "clone"], ops={"todirect", "probe", "iter", "iterb", "iterd", "find", "findb", "destroy", "write"}, summary=True),
     "C12": dict(profiles=["grow", "churn", "mix"], ops={"new", "create", "createw", "destroy", "dump", "iterd"}, summary=True),
     "C13": dict(profiles=["clone", "mix"], ops={"clone", "switch", "probe", "rows", "events", "dump", "drop", "create", "createw", "destroy"}, summary=True),
-    "C14": dict(profiles=["forge", "mix", "churn"], ops={"conv", "cmp", "forge", "create", "createw"}, summary=False),
+    "C14": dict(profiles=["forge", "mix", "churn"], ops={"conv", "cmp", "forge", "create", "createw", "todirect"}, summary=False),
     "C17": dict(profiles=["events", "mix", "clone"], ops={"events", "clear"}, summary=False),
     "C11": dict(profiles=["borrow", "mix"], ops={"nest"}, summary=False),
     # C10: everything observed after a panic matters, so every op kind is in the footprint
@@ -984,7 +1005,7 @@ def check_rt(prop, tier, seed):
     if prop in ("C10", "C17"):
         # the generation-overflow panic with event logs on (events without wrapping_version)
         streams.append(run_stream("dbg-e", "overflow", seed, t["nseq"], t["maxops"]))
-    if prop in ("C04", "C10", "C07"):
+    if prop in ("C03", "C04", "C10", "C07"):
         for c in QUICK_CONFIGS:
             streams.append(run_shapes(c))
     if prop == "C17":
